@@ -464,6 +464,48 @@ def order_extra(pid, inner=None):
     return extra
 
 
+def stall_extra(pid, inner=None):
+    """A caller that really waits in front of the full command queue (harness `stall`): one slot, the worker held back for
+    a while in real time, then released. The write that waited must be queued and acknowledged like any other - a cache that
+    is not shutting down never refuses a write because the queue stayed full for some time."""
+    def extra(ctx, res, allsched, impl):
+        import subprocess
+        if inner:
+            inner(ctx, res, allsched, impl)
+        if ctx.get("replay"):
+            return
+        binary, tier = ctx["binary"], ctx["tier"]
+        runs = []
+        for millis in ([900] if tier == "quick" else [300, 900, 2500, 6000]):
+            args = ["stall", str(millis)]
+            rep = dict(millis=millis, replay="./.build/target/debug/cached-verif-harness " + " ".join(args))
+            try:
+                p = subprocess.run([binary] + args, capture_output=True, text=True, timeout=120)
+                out = [json.loads(l) for l in p.stdout.splitlines() if l.startswith("{")]
+            except subprocess.TimeoutExpired:
+                res["failures"].append(dict(rep, signature="stall-run-hung", no_shrink=True, what="the run with a caller waiting %d ms in front of the full queue did not finish" % millis))
+                continue
+            d = [x for x in out if x.get("stall")]
+            if not d:
+                res["failures"].append(dict(rep, signature="stall-run-crashed", no_shrink=True, what="the stalled-queue run printed no result: %s" % p.stderr[-800:]))
+                continue
+            d = d[0]
+            runs.append(d)
+            res["evaluations"] += 2
+            if not d["caller_returned"]:
+                res["failures"].append(dict(rep, signature="blocked-write-never-returns", no_shrink=True, observed=d,
+                                            what="put 2 waited for a queue slot; the worker was released after %d ms and the call still had not returned 10 s later" % millis))
+            elif not (d["first_queued"] and d["second_queued"]):
+                res["failures"].append(dict(rep, signature="write-refused-while-running", no_shrink=True, observed=d,
+                                            what="the cache was running (no shutdown was ever requested) and the queue's single slot stayed taken for %d ms: put 1 %s, put 2 %s - a write was refused although the cache is not shutting down" % (millis, "queued" if d["first_queued"] else "refused with an error", "queued" if d["second_queued"] else "refused with an error")))
+            elif (d["first_status"], d["second_status"]) != (1, 1) or (d["value_1"], d["value_2"]) != (11, 22):
+                res["failures"].append(dict(rep, signature="waited-write-lost", no_shrink=True, observed=d,
+                                            what="both puts were queued (weights 1 into an empty cache of weight 100000, so both are admitted) yet statuses are %s/%s and the values read back are %s/%s instead of Accepted/Accepted and 11/22" % (d["first_status"], d["second_status"], d["value_1"], d["value_2"])))
+        res["extra"]["stall_runs"] = runs
+        res["rule"] += "; plus %d runs with a caller really waiting in front of the full command queue" % len(runs)
+    return extra
+
+
 def window_extra(pid, inner=None, monitor=False):
     """Schedules with overtaking (a put_or_update stopped between its store update and its index update, the worker stopped
     between the store insert and the index registration of a put with time-to-live, other events in between), run on the
@@ -635,7 +677,7 @@ def run_C12(ctx):
 PROPS.update({
     "C02": dict(module="C02", modules=["C02", "C02_micro"], run=mk("C02", ["general", "reads", "ttl", "evict", "queue1", "ttlchain"], 250, 4000, extra=micro_extra("C02", profiles=("reads", "general", "ttl"))), components=["store", "api", "queue_worker", "time"],
                 assumptions=["phase-contiguous schedules; every write uses a unique value token; hash functions identity / constant / mod 2 / multiplicative"]),
-    "C11": dict(module="C11", modules=["C11", "C11_micro"], run=mk("C11", ["queue1", "general", "shutdown"], 250, 4000, extra=micro_extra("C11", order_extra("C11"), profiles=("queue1", "general", "awaited"))), components=["queue_worker", "api", "roles"],
+    "C11": dict(module="C11", modules=["C11", "C11_micro"], run=mk("C11", ["queue1", "general", "shutdown"], 250, 4000, extra=micro_extra("C11", stall_extra("C11", order_extra("C11")), profiles=("queue1", "general", "awaited"))), components=["queue_worker", "api", "roles"],
                 assumptions=["that crossbeam's bounded channel is FIFO and that send blocks when full is exercised through parked senders (queue sizes 1,2,3,8), not proved"]),
     "C12": dict(module="C12", run=run_C12, components=["ack"],
                 assumptions=["each access to status / waker slot is one atomic action because it happens under its parking_lot mutex; Release/Acquire on the flag is modelled as sequentially consistent"]),
